@@ -52,6 +52,8 @@ package push
 //@   ensures [a_registered_responder_is_always_handed_to_send] old(ghost.cm_has[arr(b.responders)][str(id)]) ==> calls(send) == 1
 //@   ensures [a_taken_responder_is_served_put_back_or_told_to_give_up_never_dropped] old(ghost.cm_has[arr(b.responders)][str(id)]) ==>
 //@       ghost.chansent[R] == old(ghost.chansent[R]) + 1 || (ghost.cm_has[arr(b.responders)][str(id)] && ival(ghost.cm_val[arr(b.responders)][str(id)]) == R)
+//@   ensures [a_responder_that_was_answered_is_not_left_registered] ghost.chansent[R] == old(ghost.chansent[R]) + 1 ==>
+//@       !(ghost.cm_has[arr(b.responders)][str(id)] && ival(ghost.cm_val[arr(b.responders)][str(id)]) == R)
 //@   atcall send [the_batch_goes_to_the_responder_that_was_registered_for_this_client] arg2 == id && arg3 == as(old(ghost.cm_val[arr(b.responders)][str(id)]), chan map[string][]Message)
 //@   atcall SetIfAbsent [a_responder_that_got_nothing_is_put_back_for_the_same_client] arg1 == id && ival(arg2) == ival(old(ghost.cm_val[arr(b.responders)][str(id)])) && calls(send) == 1
 
@@ -194,3 +196,13 @@ package push
 //@   modifies ghost.*
 //@   atcall call [each_message_of_the_batch_in_order_to_the_callback_of_its_topic] same(arg1, callback) &&
 //@       same(arg2.Data, messages[rangeidx()].Data) && arg2.From == messages[rangeidx()].From
+
+// the client keeps polling until the broker answers nil (not subscribed to anything any more); the
+// EMPTY batch of a poll that timed out on the broker's side is not a reason to stop
+//@ func (*Prosumer).message
+//@   prop C19
+//@   flag typeassert=panic
+//@   havoc
+//@   requires p != nil
+//@   modifies ghost.*
+//@   ensures [polling_stops_only_when_the_broker_answers_nil] topics == nil && err == nil
